@@ -2,7 +2,8 @@
   Unacknowledged deliveries and killed workers: the shape of a partial delivery (`part_shape`), queue bookkeeping
   without "queued rows are unprocessed" (`Plumb2`), and the cancel invariant `CancInv2` over every schedule that has
   no nested (second-worker) delivery: canceled ⇒ workflow final ∨ an UNPROCESSED CompleteWorkflow / CancelWorkflow row
-  is queued.  Result: `canceled_drained_is_final_crash`.
+  is queued.  Results: `canceled_drained_is_final_crash` (no nested delivery) and, carrying the invariant through the
+  second worker's deliveries and the RunTask's late result commit, `canceled_drained_is_final_always` (every operation list).
 -/
 import Stab.Lemmas.EngineCancel
 namespace Stab.Engine
@@ -587,5 +588,243 @@ theorem canceled_drained_is_final_crash (c : Cfg) (ops : List Op) (hn : NoNested
   rcases (run_cancInv2 c ops hn).cw hc with h1 | ⟨x, hx, _⟩
   · exact h1
   · rw [hq] at hx; cases hx
+
+/-! ### nested deliveries (a second worker delivers messages while a task executes) -/
+
+theorem runTaskCommit_effs (c : Cfg) (st : StageSt) (id i t a n : Nat) (oc : Outcome) :
+    ∀ e ∈ (runTaskCommit c st id i t a n oc).flatten, (∀ z, e ≠ Eff.setWf z) ∧ e ≠ Eff.setCanceled ∧ (∀ p, e = Eff.mark p → p = id) := by
+  intro e he
+  simp only [runTaskCommit, processResult] at he
+  (repeat' split at he) <;> simp at he <;> (try (rcases he with rfl | rfl | rfl | rfl | rfl)) <;> simp_all
+
+
+/-- rows that existed before a delivery keep their id and message; new rows get ids from `nextId` upwards -/
+theorem deliverRow_oldrow (c : Cfg) (s : State) (r : Row) (ack : Bool) (k : Option Nat) (hp : Plumb2 s) (hmem : r ∈ s.queue) :
+    (∀ y' ∈ (deliverRow c s r ack k).queue, y'.id < s.nextId → ∃ y ∈ s.queue, y.id = y'.id ∧ y.msg = y'.msg) ∧
+    s.nextId ≤ (deliverRow c s r ack k).nextId := by
+  have hclaim : ∀ y' ∈ (claimRow s r.id).queue, ∃ y ∈ s.queue, y.id = y'.id ∧ y.msg = y'.msg := by
+    intro y' hy'
+    obtain ⟨y, hy, h1, h2, _⟩ := claimRow_mem s r.id y' hy'
+    exact ⟨y, hy, h1, h2⟩
+  by_cases hpr : r.id ∈ s.processed
+  · rw [deliverRow_processed c s r ack k hpr]
+    split
+    · exact ⟨fun y' hy' _ => hclaim y' (List.mem_filter.mp hy').1, Nat.le_refl _⟩
+    · exact ⟨fun y' hy' _ => hclaim y' hy', Nat.le_refl _⟩
+  · cases hr : raises c s { r with attempts := r.attempts + 1 } with
+    | true =>
+      rw [deliverRow_raises c s r ack k hpr hr]
+      exact ⟨fun y' hy' _ => hclaim y' hy', Nat.le_refl _⟩
+    | false =>
+      have sh := part_shape c s r ack k hpr (hp.fresh r hmem) hr
+      refine ⟨?_, by rw [sh.nextId]; omega⟩
+      intro y' hy' hlt
+      rw [sh.queue] at hy'
+      rcases List.mem_append.mp hy' with h1 | h1
+      · split at h1
+        · exact ⟨y', (List.mem_filter.mp h1).1, rfl, rfl⟩
+        · exact hclaim y' h1
+      · have := (mkRows_ids _ _ y' h1).1
+        omega
+
+theorem step_deliver_eq (c : Cfg) (s : State) (j : Nat) :
+    (match s.queue.find? (fun r => r.id == j) with
+      | none => s
+      | some rj => deliverRow c s rj true none) = step c s (.deliver j) := rfl
+
+/-- the invariant carried through the second worker's deliveries: `CancInv2`, and the row with the RunTask's id keeps its message -/
+theorem inner_fold (c : Cfg) (inner : List Nat) (rid : Nat) (m : Msg) (s2 : State) (h : CancInv2 s2) (hlt : rid < s2.nextId)
+    (hm : ∀ y ∈ s2.queue, y.id = rid → y.msg = m) :
+    let s3 := inner.foldl (fun st j => step c st (.deliver j)) s2
+    CancInv2 s3 ∧ rid < s3.nextId ∧ (∀ y ∈ s3.queue, y.id = rid → y.msg = m) := by
+  induction inner generalizing s2 with
+  | nil => exact ⟨h, hlt, hm⟩
+  | cons j js ih =>
+    simp only [List.foldl]
+    have h' : CancInv2 (step c s2 (.deliver j)) := step_cancInv2 c s2 (.deliver j) h (fun _ _ => by simp)
+    have hrest : rid < (step c s2 (.deliver j)).nextId ∧ (∀ y ∈ (step c s2 (.deliver j)).queue, y.id = rid → y.msg = m) := by
+      cases hf : s2.queue.find? (fun x => x.id == j) with
+      | none => simp only [step, hf]; exact ⟨hlt, hm⟩
+      | some rj =>
+        simp only [step, hf]
+        obtain ⟨h1, h2⟩ := deliverRow_oldrow c s2 rj true none h.plumb (find_mem hf).1
+        refine ⟨by omega, ?_⟩
+        intro y hy hid
+        obtain ⟨y0, hy0, e1, e2⟩ := h1 y hy (by omega)
+        rw [← e2]; exact hm y0 hy0 (e1.trans hid)
+    exact ih _ h' hrest.1 hrest.2
+
+
+theorem cancInv2_recordExec (c : Cfg) (s : State) (row : Row) (h : CancInv2 s) : CancInv2 (recordExec c s row) := by
+  obtain ⟨q1, q2, q3⟩ := recordExec_queue c s row
+  obtain ⟨c1, c2, c3⟩ := recordExec_core c s row
+  refine ⟨⟨by rw [q1]; exact h.plumb.ids, by rw [q1, q2]; exact h.plumb.fresh, by rw [q2, q3]; exact h.plumb.pfresh⟩, ?_⟩
+  intro hc
+  rw [c3] at hc
+  rcases h.cw hc with h1 | ⟨x, hx, hp, hm⟩
+  · left; rw [c2]; exact h1
+  · right; exact ⟨x, by rw [q1]; exact hx, by rw [q3]; exact hp, hm⟩
+
+/-- the result commit of a nested RunTask (read from the state AFTER the second worker's deliveries) + mark + ack -/
+theorem nested_final (c : Cfg) (s3 : State) (rid i t a n : Nat) (oc : Outcome) (h : CancInv2 s3) (hlt : rid < s3.nextId)
+    (hm : ∀ y ∈ s3.queue, y.id = rid → y.msg = .runTask i t) :
+    CancInv2 (ackRow (applyEff (applyTxns s3 (runTaskCommit c (s3.stage i) rid i t a n oc)) (.mark rid)) rid) := by
+  rw [applyTxns_eq_flatten]
+  generalize hE : (runTaskCommit c (s3.stage i) rid i t a n oc).flatten = E
+  have heff := runTaskCommit_effs c (s3.stage i) rid i t a n oc
+  rw [hE] at heff
+  obtain ⟨hq, hn⟩ := applyTxn_queue s3 E
+  have hnew := mkRows_ids s3.nextId (pushesOf E)
+  have hmarks : ∀ p ∈ marksOf E, p = rid := fun p hp => (heff _ ((mem_marksOf _ _).mp hp)).2.2 p rfl
+  have hproc : ∀ p, p ∈ (applyEff (applyTxn s3 E) (.mark rid)).processed ↔ p ∈ s3.processed ∨ p = rid := by
+    intro p
+    rw [applyEff_mark_processed, applyTxn_processed]
+    constructor
+    · rintro ((h1 | h1) | h1)
+      · exact Or.inl h1
+      · exact Or.inr (hmarks p h1)
+      · exact Or.inr h1
+    · rintro (h1 | h1)
+      · exact Or.inl (Or.inl h1)
+      · exact Or.inr h1
+  have hcan : (applyTxn s3 E).canceled = s3.canceled := by
+    cases hc : s3.canceled with
+    | true => exact (applyTxn_canceled_iff s3 E).mpr (Or.inl hc)
+    | false =>
+      cases hc' : (applyTxn s3 E).canceled with
+      | false => rfl
+      | true =>
+        rcases (applyTxn_canceled_iff s3 E).mp hc' with h1 | h1
+        · rw [hc] at h1; cases h1
+        · exact absurd rfl (heff _ h1).2.1
+  have hwf : (applyTxn s3 E).wfStatus = s3.wfStatus := by
+    rcases applyTxn_wf_setWf s3 E with h1 | ⟨st, hst, _⟩
+    · exact h1
+    · exact absurd rfl ((heff _ hst).1 st)
+  refine ⟨⟨?_, ?_, ?_⟩, ?_⟩
+  · simp only [ackRow, (applyEff_mark_queue _ _).1, hq]
+    apply List.Nodup.sublist ((List.filter_sublist).map _)
+    rw [List.map_append, List.nodup_append]
+    refine ⟨h.plumb.ids, mkRows_nodup _ _, ?_⟩
+    intro a ha b hb hab
+    simp only [List.mem_map] at ha hb
+    obtain ⟨x, hx, rfl⟩ := ha
+    obtain ⟨y, hy, rfl⟩ := hb
+    have h1 := h.plumb.fresh x hx
+    have h2 := (hnew y hy).1
+    omega
+  · intro x hx
+    simp only [ackRow, (applyEff_mark_queue _ _).1, (applyEff_mark_queue _ _).2, hq, hn] at hx ⊢
+    rcases List.mem_append.mp (List.mem_filter.mp hx).1 with h1 | h1
+    · have := h.plumb.fresh x h1; omega
+    · exact (hnew x h1).2
+  · intro p hp
+    simp only [ackRow, (applyEff_mark_queue _ _).2, hn] at hp ⊢
+    rcases (hproc p).mp hp with h1 | h1
+    · have := h.plumb.pfresh p h1; omega
+    · omega
+  · intro hc
+    have hc3 : s3.canceled = true := by
+      simp only [ackRow] at hc
+      rw [applyEff_mark_canceled', hcan] at hc
+      exact hc
+    rcases h.cw hc3 with h1 | ⟨x, hx, hxp, hxm⟩
+    · left
+      simp only [ackRow]
+      rw [applyEff_mark_wf', hwf]; exact h1
+    · right
+      have hne : x.id ≠ rid := by
+        intro e
+        have := hm x hx e
+        rcases hxm with ⟨kk, h2⟩ | h2 <;> rw [this] at h2 <;> cases h2
+      refine ⟨x, ?_, ?_, hxm⟩
+      · simp only [ackRow, (applyEff_mark_queue _ _).1, hq]
+        exact List.mem_filter.mpr ⟨List.mem_append_left _ hx, by simpa using hne⟩
+      · intro hin
+        simp only [ackRow] at hin
+        rcases (hproc x.id).mp hin with h1 | h1
+        · exact hxp h1
+        · exact hne h1
+
+
+theorem cancInv2_claim (s : State) (id : Nat) (h : CancInv2 s) : CancInv2 (claimRow s id) := by
+  refine ⟨claimRow_plumb2 s id h.plumb, ?_⟩
+  intro hc
+  rcases h.cw hc with h1 | ⟨x, hx⟩
+  · exact Or.inl h1
+  · obtain ⟨x', hx', _⟩ := isWit_claim s id x hx
+    exact Or.inr ⟨x', hx'⟩
+
+theorem step_cancInv2_all (c : Cfg) (s : State) (op : Op) (h : CancInv2 s) : CancInv2 (step c s op) := by
+  cases op with
+  | nested id inner =>
+    cases hf : s.queue.find? (fun x => x.id == id) with
+    | none => simp only [step, hf]; exact h
+    | some r0 =>
+      obtain ⟨hmem, hid⟩ := find_mem hf
+      have hdel := deliverRow_cancInv2 c s r0 true none h hmem (fun _ => rfl)
+      cases hmsg : r0.msg with
+      | runTask i t =>
+        obtain ⟨rid, rmsg, ratt⟩ := r0
+        simp only at hmsg
+        subst hmsg
+        simp only [step, hf]
+        split
+        · rename_i hproc
+          have hpr : rid ∈ s.processed := by simpa using hproc
+          have := deliverRow_processed c s ⟨rid, .runTask i t, ratt⟩ true none hpr
+          simp only [↓reduceIte] at this
+          rw [← this]; exact hdel
+        · split
+          · exact hdel
+          · have h1 := cancInv2_claim s rid h
+            have h2 := cancInv2_recordExec c (claimRow s rid) ⟨rid, .runTask i t, ratt + 1⟩ h1
+            have hlt : rid < (recordExec c (claimRow s rid) ⟨rid, .runTask i t, ratt + 1⟩).nextId := by
+              rw [(recordExec_queue c _ _).2.1]; exact h.plumb.fresh _ hmem
+            have hm2 : ∀ y ∈ (recordExec c (claimRow s rid) ⟨rid, .runTask i t, ratt + 1⟩).queue,
+                y.id = rid → y.msg = .runTask i t := by
+              intro y hy hyid
+              rw [(recordExec_queue c _ _).1] at hy
+              obtain ⟨y0, hy0, e1, e2, _⟩ := claimRow_mem s rid y hy
+              have : y0 = ⟨rid, .runTask i t, ratt⟩ := nodup_ids_inj s.queue h.plumb.ids y0 _ hy0 hmem (e1.trans hyid)
+              rw [← e2, this]
+            obtain ⟨h3, hlt3, hm3⟩ := inner_fold c inner rid (.runTask i t) _ h2 hlt hm2
+            exact nested_final c _ rid i t _ _ _ h3 hlt3 hm3
+      | startWorkflow => simp only [step, hf, hmsg]; exact hdel
+      | startStage _ _ => simp only [step, hf, hmsg]; exact hdel
+      | startTask _ _ => simp only [step, hf, hmsg]; exact hdel
+      | completeTask _ _ _ => simp only [step, hf, hmsg]; exact hdel
+      | completeStage _ => simp only [step, hf, hmsg]; exact hdel
+      | skipStage _ => simp only [step, hf, hmsg]; exact hdel
+      | cancelStage _ => simp only [step, hf, hmsg]; exact hdel
+      | completeWorkflow _ => simp only [step, hf, hmsg]; exact hdel
+      | cancelWorkflow => simp only [step, hf, hmsg]; exact hdel
+      | jumpToStage _ _ => simp only [step, hf, hmsg]; exact hdel
+      | signalStage _ _ => simp only [step, hf, hmsg]; exact hdel
+  | deliver id => exact step_cancInv2 c s _ h (by intros; simp)
+  | deliverNoAck id => exact step_cancInv2 c s _ h (by intros; simp)
+  | crash id k => exact step_cancInv2 c s _ h (by intros; simp)
+  | cancel => exact step_cancInv2 c s _ h (by intros; simp)
+  | signal i p => exact step_cancInv2 c s _ h (by intros; simp)
+  | sweep => exact step_cancInv2 c s _ h (by intros; simp)
+
+theorem run_cancInv2_all (c : Cfg) (ops : List Op) : CancInv2 (run c ops) := by
+  unfold run
+  have h0 : CancInv2 (start c) := by
+    have hp := start_plumb c
+    exact ⟨⟨hp.ids, hp.fresh, hp.pfresh⟩, by intro h; simp [start, applyEff, initState] at h⟩
+  suffices ∀ s, CancInv2 s → CancInv2 (ops.foldl (step c) s) from this _ h0
+  induction ops with
+  | nil => intro s h; exact h
+  | cons op ops ih => intro s h; exact ih _ (step_cancInv2_all c s op h)
+
+/-- **Once a cancel has been accepted, a drained queue means the workflow is final** - for every workflow and EVERY
+    operation list of the engine model, without exception. -/
+theorem canceled_drained_is_final_always (c : Cfg) (ops : List Op)
+    (hc : (run c ops).canceled = true) (hq : (run c ops).queue = []) : (run c ops).wfStatus.isComplete = true := by
+  rcases (run_cancInv2_all c ops).cw hc with h1 | ⟨x, hx, _⟩
+  · exact h1
+  · rw [hq] at hx; cases hx
+
 
 end Stab.Engine
